@@ -406,6 +406,41 @@ func genCodec(out *sink, rnd *rand.Rand, thorough bool) {
 			}
 		}
 	}
+	// NOTIFICATION data that looks like an RFC 9003 shutdown communication (a length octet first), for every
+	// relation between that octet and the real length, and data longer than 255 octets
+	for _, cs := range [][2]int{{6, 2}, {6, 4}, {6, 1}, {3, 1}} {
+		for _, total := range []int{1, 2, 3, 5, 129, 256, 257, 300, 4075} {
+			for _, first := range []int{0, 1, total - 2, total - 1, total, 255} {
+				if first < 0 {
+					continue
+				}
+				d := counter(total)
+				d[0] = byte(first)
+				r := rec{"panic": false, "enc": []int{}, "dec": rec{"ok": false, "n": notifRec(nil)}}
+				safely(r, func() {
+					b, _ := corebgp.VerifNotificationEncode(&corebgp.Notification{Code: uint8(cs[0]), Subcode: uint8(cs[1]), Data: d})
+					r["enc"] = ints(b)
+					if len(b) >= 19 {
+						n, err := corebgp.VerifNotificationDecode(b[19:])
+						r["dec"] = rec{"ok": err == nil, "n": notifRec(n)}
+					}
+				})
+				out.put(rec{"f": "notif", "code": cs[0], "sub": cs[1], "data": ints(d), "r": r})
+				// and decoding the body directly
+				body := append([]byte{byte(cs[0]), byte(cs[1])}, d...)
+				r2 := rec{"panic": false, "dec": rec{"ok": false, "n": notifRec(nil)}, "reenc": []int{}}
+				safely(r2, func() {
+					n, err := corebgp.VerifNotificationDecode(append([]byte{}, body...))
+					r2["dec"] = rec{"ok": err == nil, "n": notifRec(n)}
+					if err == nil {
+						e, _ := corebgp.VerifNotificationEncode(n)
+						r2["reenc"] = ints(e)
+					}
+				})
+				out.put(rec{"f": "notifdec", "b": ints(body), "r": r2})
+			}
+		}
+	}
 	// NOTIFICATION: decode arbitrary bodies, re-encode what was accepted
 	for _, s := range shortStrings([]byte{0, 1, 6, 255}, 4) {
 		r := rec{"panic": false, "dec": rec{"ok": false, "n": notifRec(nil)}, "reenc": []int{}}
